@@ -44,6 +44,16 @@ type countingCtx struct {
 	siteOnly bool
 	hitSite  string
 	released bool
+	// why: what Err() reports once the context has ended (nil = context.Canceled); a context ends either by
+	// cancel() or by its deadline, and both mean "stop"
+	why error
+}
+
+func (c *countingCtx) reason() error {
+	if c.why != nil {
+		return c.why
+	}
+	return context.Canceled
 }
 
 func pollSite() string {
@@ -68,7 +78,7 @@ func (c *countingCtx) Err() error {
 	}
 	if c.failFrom > 0 && c.polls >= c.failFrom {
 		if !c.siteOnly {
-			return context.Canceled
+			return c.reason()
 		}
 		if c.released {
 			return nil
@@ -76,10 +86,10 @@ func (c *countingCtx) Err() error {
 		site := pollSite()
 		if c.polls == c.failFrom {
 			c.hitSite = site
-			return context.Canceled
+			return c.reason()
 		}
 		if site == c.hitSite {
-			return context.Canceled
+			return c.reason()
 		}
 		c.released = true
 		return nil
@@ -228,7 +238,14 @@ func inject(r *report.Run, l *sim.Lock, st *step, fork int) *report.Failure {
 	}
 	distinctSites := map[string]bool{}
 	for _, k := range ks {
-		fc := &countingCtx{Context: context.Background(), failFrom: k}
+		// the reason alternates between cancel() and an expired deadline
+		var why error
+		whyName := "canceled"
+		if (k+int(st.slot))%2 == 1 {
+			why, whyName = context.DeadlineExceeded, "deadline-exceeded"
+		}
+		r.Hit("cancel-reason:" + whyName)
+		fc := &countingCtx{Context: context.Background(), failFrom: k, why: why}
 		_, err, panicked := runStep(l, l.LibSpec, fc, st)
 		r.Eval(1)
 		site := "?"
@@ -239,7 +256,7 @@ func inject(r *report.Run, l *sim.Lock, st *step, fork int) *report.Failure {
 			return report.Failf("cancel/panic", "%s %s step at slot %d, cancellation at poll %d/%d (%s): %v", forkName, st.kind, st.slot, k, n, site, err)
 		}
 		if err == nil {
-			return report.Failf("cancel/success-after-cancel:"+site, "%s %s step at slot %d reports success although the context was cancelled at poll %d of %d (polled by %s)", forkName, st.kind, st.slot, k, n, site)
+			return report.Failf("cancel/success-after-cancel:"+site, "%s %s step at slot %d reports success although the context had ended (%s) at poll %d of %d (polled by %s)", forkName, st.kind, st.slot, whyName, k, n, site)
 		}
 		distinctSites[site] = true
 		r.NonTrivial(fmt.Sprintf("cancel|%s|%s|%s", forkName, st.kind, site))
@@ -247,7 +264,7 @@ func inject(r *report.Run, l *sim.Lock, st *step, fork int) *report.Failure {
 		// must still turn the whole step into an error (a swallowed cancellation cannot hide behind a later poll)
 		// Block steps run this mode with validate_result=false: a swallowed cancellation that merely skipped
 		// work must not be "reported" by the state-root comparison at the very end.
-		oc := &countingCtx{Context: context.Background(), failFrom: k, siteOnly: true}
+		oc := &countingCtx{Context: context.Background(), failFrom: k, siteOnly: true, why: why}
 		so := *st
 		so.noValidate = st.kind == "block"
 		_, err, panicked = runStep(l, l.LibSpec, oc, &so)
@@ -256,7 +273,7 @@ func inject(r *report.Run, l *sim.Lock, st *step, fork int) *report.Failure {
 			return report.Failf("cancel/panic", "%s %s step at slot %d, cancellation seen only by poll %d/%d (%s): %v", forkName, st.kind, st.slot, k, n, site, err)
 		}
 		if err == nil && oc.polls >= k { // (a poll that only exists on the validating path is never reached here)
-			return report.Failf("cancel/swallowed:"+site, "%s %s step at slot %d reports success although poll %d of %d (in %s) observed a cancelled context", forkName, st.kind, st.slot, k, n, site)
+			return report.Failf("cancel/swallowed:"+site, "%s %s step at slot %d reports success although poll %d of %d (in %s) observed an ended context (%s)", forkName, st.kind, st.slot, k, n, site, whyName)
 		}
 	}
 	r.ClassN("cancellation-injections", int64(len(ks)))
@@ -549,7 +566,7 @@ func isDefaultPayload(sb *refspec.SignedBlock) bool {
 func TestCheck(t *testing.T) {
 	r := report.Begin("C18")
 	defer r.Finish()
-	r.Rule("for every ProcessSlots / StateTransition step of generated chains: poll count N measured with a counting context, then one re-run from a fresh copy per k in 1..N (all of them when N<=400, else first/last 50 and ~300 of the rest) with Canceled from the k-th poll on; for every payload-carrying block the full product of engine verdicts {valid,invalid,error} per engine call (the error rotating over a plain error and errors wrapping context.DeadlineExceeded / context.Canceled while the caller's context is alive) (9 for bellatrix/capella, 27 for deneb). non-trivial = an injected cancellation or engine verdict; distinct key = (fork, step kind, polling call site) / (fork, verdict triple)")
+	r.Rule("for every ProcessSlots / StateTransition step of generated chains: poll count N measured with a counting context, then one re-run from a fresh copy per k in 1..N (all of them when N<=400, else first/last 50 and ~300 of the rest) with the context ended (alternately context.Canceled and context.DeadlineExceeded) from the k-th poll on; for every payload-carrying block the full product of engine verdicts {valid,invalid,error} per engine call (the error rotating over a plain error and errors wrapping context.DeadlineExceeded / context.Canceled while the caller's context is alive) (9 for bellatrix/capella, 27 for deneb). non-trivial = an injected cancellation or engine verdict; distinct key = (fork, step kind, polling call site) / (fork, verdict triple)")
 	r.Assume("cancellation between two polls is indistinguishable from cancellation at the next poll; work after the last poll cannot be interrupted by construction", "steps on which the undisturbed library run already fails or diverges from the reference (C01/C02) end the case without a verdict")
 	replay := func(raw json.RawMessage) *report.Failure {
 		var cc sim.ChainCase
@@ -562,7 +579,7 @@ func TestCheck(t *testing.T) {
 	if r.Replay != "" {
 		return
 	}
-	r.Mandatory("cancel:phase0", "cancel:altair", "cancel:bellatrix", "cancel:capella", "cancel:deneb", "epoch-processing-step", "step-with>=5-polls-over>=2-sites",
+	r.Mandatory("cancel-reason:canceled", "cancel-reason:deadline-exceeded", "cancel:phase0", "cancel:altair", "cancel:bellatrix", "cancel:capella", "cancel:deneb", "epoch-processing-step", "step-with>=5-polls-over>=2-sites",
 		"engine-fault:bellatrix", "engine-fault:capella", "engine-fault:deneb", "engine-all-valid:bellatrix", "engine-all-valid:capella", "engine-all-valid:deneb", "versioned-hashes-nonempty")
 	opts := sim.GenOpts{CustomPct: 90, AllowMainnet: false, MaxSlots: 36, BlockPct: 65, MaxSkip: 2, OpsBias: 50, MaxN: 40}
 	r.Search(t, "chains", 0, r.N(160, 2400), func(rt *rapid.T) (any, *report.Failure) {
